@@ -159,7 +159,7 @@ fn c01(args: &Args) -> ! {
 // ---------------------------------------------------------------------------------- C04
 
 fn c04(args: &Args) -> ! {
-    let mut rep = Report::new("C04", "every request sequence over RQ containing >=1 oneway request (every kind, every position) up to the length bound; (a) one request per handle call: bytes written during a oneway request's call must be 0, (b) every pipelining depth: reply bytes must equal (prefix if closed) those of the same sequence with the oneway requests deleted, (c) reference match with no oneway slack; non-trivial = distinct (sequence, depth)");
+    let mut rep = Report::new("C04", "every request sequence over RQ containing >=1 oneway request (every kind, every position) up to the length bound; (a) one request per handle call: bytes written during a oneway request's call must be 0, (b) every pipelining depth: reply bytes must equal (prefix if closed) those of the same sequence with the oneway requests deleted, (c) reference match with no oneway slack; (d) a oneway request to the upgrading method behind nothing / behind every letter writes nothing; non-trivial = distinct (sequence, depth)");
     let (svc, _log) = new_ts();
     let replay = args.replay_case();
     let alpha = alphabet();
@@ -229,6 +229,35 @@ fn c04(args: &Args) -> ! {
         }
         if rep.want_sample() || replay.is_some() {
             rep.sample(case);
+        }
+    }
+    // a oneway request to a method whose handler upgrades the connection (it marks the call upgraded, then replies):
+    // behind nothing and behind every letter of the alphabet, one request per handle call and pipelined
+    if replay.is_none() && args.shard == 0 {
+        let mut pres: Vec<Vec<Req>> = vec![vec![]];
+        for (k, f) in &alpha {
+            pres.push(vec![Req::new(*k, *f, "p0")]);
+        }
+        for pre in pres {
+            for uf in [Flag::Oneway, Flag::OnewayMore] {
+                let mut reqs = pre.clone();
+                reqs.push(Req::new(Kind::Upgrade, uf, "u"));
+                let case = json!({"reqs": reqs_to_json(&reqs)});
+                rep.eval(Some(&format!("{:?}/upgrade-oneway", reqs_to_json(&reqs).to_string())));
+                let base = feed(&svc, &batches(&pre, 1));
+                for d in [1usize, reqs.len()] {
+                    let run = feed(&svc, &batches(&reqs, d));
+                    if let Some(p) = &run.panicked {
+                        rep.violation("C04/panic", p, case.clone());
+                        continue;
+                    }
+                    // (the connection may have been closed by the request before it: then a prefix)
+                    let ok = if base.closed { base.out.starts_with(&run.out) || run.out == base.out } else { run.out == base.out };
+                    if !ok {
+                        rep.violation("C04/reply-to-oneway:Upgrade", &format!("depth {}: with the oneway upgrade request appended the reply stream is {} instead of {}", d, b2s(&run.out), b2s(&base.out)), case.clone());
+                    }
+                }
+            }
         }
     }
     rep.finish(args)
@@ -520,7 +549,7 @@ fn c02_streams(thorough: bool) -> Vec<(String, Vec<u8>, Option<usize>)> {
 
 // ---------------------------------------------------------------------------------- C03
 
-const POOL: [(&str, &str); 7] = [
+const POOL: [(&str, &str); 8] = [
     ("a.b", "interface a.b\nmethod M() -> ()\n"),
     ("a.b.c", "interface a.b.c\n# doc\nmethod M() -> ()\n"),
     ("a.bc", "interface a.bc\n\nmethod M() -> ()"),
@@ -528,6 +557,7 @@ const POOL: [(&str, &str); 7] = [
     ("A.b", "interface A.b\nmethod M(y: string) -> ()\n"),
     ("a.b1", "interface a.b1\r\nmethod M() -> ()\r\n"),
     ("x-1.y2", "interface x-1.y2\nmethod M() -> ()\n\n\n"),
+    ("a.Bz", "interface a.Bz\nmethod M() -> ()\n"),
 ];
 const UNREG: [&str; 2] = ["a.c", "org.verif"];
 
@@ -570,15 +600,15 @@ fn c03_one(svc: &VarlinkService, seen: &Arc<Mutex<Vec<Seen>>>, req: &Value) -> (
 }
 
 fn c03(args: &Args) -> ! {
-    let mut rep = Report::new("C03", "every service configuration (every subset of size<=3 of a 7-name pool with shared prefixes/hyphens/digits/upper case, plus the generated org.verif.t) x every method string built from every pool/unregistered name (n.M, n, n., .n, n..M, n.M.N, '', '.', 'M', service methods) x parameters {absent, {}, nested} x flags {none, more, oneway, upgrade}; plus GetInfo and GetInterfaceDescription of every name per configuration; a generated interface whose definition file has CRLF line ends must be described verbatim; non-trivial = distinct (configuration, request)");
+    let mut rep = Report::new("C03", "every service configuration (every subset of size<=3 of an 8-name pool with shared prefixes/hyphens/digits/upper case (byte order and case-insensitive order of the names disagree), plus the generated org.verif.t) x every method string built from every pool/unregistered name (n.M, n, n., .n, n..M, n.M.N, '', '.', 'M', service methods) x parameters {absent, {}, nested} x flags {none, more, oneway, upgrade}; plus GetInfo and GetInterfaceDescription of every name per configuration; a generated interface whose definition file has CRLF line ends must be described verbatim; non-trivial = distinct (configuration, request)");
     let replay = args.replay_case();
     // configurations
     let mut cfgs: Vec<Vec<usize>> = vec![vec![]];
-    for a in 0..7 {
+    for a in 0..POOL.len() {
         cfgs.push(vec![a]);
-        for b in a + 1..7 {
+        for b in a + 1..POOL.len() {
             cfgs.push(vec![a, b]);
-            for c in b + 1..7 {
+            for c in b + 1..POOL.len() {
                 cfgs.push(vec![a, b, c]);
             }
         }
@@ -595,6 +625,10 @@ fn c03(args: &Args) -> ! {
     cfgs.push(vec![0, 2, 0]);
     cfgs.push(vec![1, 0, 0]);
     cfgs.push(vec![0, 1, 2, 0, 1]);
+    // names whose byte order and case-insensitive order disagree, registered together (all tiers)
+    cfgs.push(vec![7, 0, 2]);
+    cfgs.push(vec![0, 7]);
+    cfgs.push(vec![4, 7, 1, 5]);
     let methods = c03_methods();
     let params: Vec<Option<Value>> = vec![None, Some(json!({})), Some(json!({"k": [1, {"z": null}], "interface": "a.b"}))];
     let flags = ["none", "more", "oneway", "upgrade"];
